@@ -12,7 +12,7 @@ for sid in ids:
     if subprocess.run(['git', '-C', REPO, 'diff', '--quiet']).returncode != 0:
         print(REPO + ' has uncommitted changes'); sys.exit(2)
     if subprocess.run(['git', '-C', REPO, 'apply', d + '/patch.diff']).returncode != 0:
-        print(sid, 'patch does not apply'); continue
+        print(sid, 'patch does not apply'); meta['detected_by'] = []; meta['obsolete'] = 'the patch no longer applies: the code it changes was rewritten by a later fix: commit'; json.dump(meta, open(d + '/meta.json', 'w'), indent=1); continue
     try:
         for f in ('props.json', 'known_findings.json'):
             shutil.copy('/verif/' + f, '/tmp/seedverif/' + f)
@@ -22,7 +22,7 @@ for sid in ids:
         det, detail = [], []
         for p in meta['run_checks']:
             if p not in claimed: continue
-            r = subprocess.run(['/verif/bin/govc', 'check', p], cwd='/verif', env=dict(os.environ, GOVC_VERIF='/tmp/seedverif', GOVC_REPO=REPO), capture_output=True, text=True)
+            r = subprocess.run(['/verif/bin/govc', 'check', p, '--noselftest'], cwd='/verif', env=dict(os.environ, GOVC_VERIF='/tmp/seedverif', GOVC_REPO=REPO), capture_output=True, text=True)
             viol = [l for l in r.stdout.splitlines() if l.startswith('VIOLATION')]
             und = [l for l in r.stdout.splitlines() if l.startswith('UNDECIDED')]
             if viol:
@@ -32,7 +32,7 @@ for sid in ids:
             elif und:
                 detail.append({"check": p, "exit": r.returncode, "undecided": und[:3]})
         meta['detected_by'], meta['detection_detail'] = det, detail
-        meta['ran'] = "git -C /repo apply patch.diff; bin/govc check <P> (quick) for P in run_checks that are claimed; git -C /repo checkout -- ."
+        meta['ran'] = "git -C %s apply patch.diff; bin/govc check <P> (quick) for P in run_checks that are claimed; git -C %s checkout -- ." % (REPO, REPO) + ("" if REPO == '/repo' else " (%s is a scratch worktree of /repo at the same commit)" % REPO)
         json.dump(meta, open(d + '/meta.json', 'w'), indent=1)
         print(sid, 'detected by', det or 'NONE')
     finally:
